@@ -207,11 +207,13 @@ theorem mirror_roundtrip_full {C : Codecs} {T : String → Prop} (hC : LawfulCod
   case h_2 => cases hc
   rename_i sM hrun
   simp only [Bool.and_eq_true, decide_eq_true_eq, beq_iff_eq, Bool.or_eq_true, List.isEmpty_iff] at hc
-  obtain ⟨⟨⟨⟨⟨⟨hints, hrel⟩, heven⟩, hwc⟩, hdl⟩, hne⟩, hhead⟩ := hc
+  obtain ⟨⟨⟨⟨⟨hints, hrel⟩, heven⟩, hwc⟩, hdl⟩, hne⟩ := hc
   -- marshal side
   have hTm : ∀ b f t, MStmt.sub b f t ∈ c.marshal → T t := fun b f t h => hT t (mem_subTypes h)
   obtain ⟨hP, hD, hH, hfitM⟩ := runMStmts_layout hC c.isAndX c.marshal m { env := prologueEnv c.isAndX env } sM F.lm
     F.stable hTm hrun hints
+  -- a program of the fragment puts nothing ahead of the parameter block
+  have hhead : sM.head = [] := hH
   simp only [List.nil_append] at hP hD
   have hframe : sM.env.get andxField = (prologueEnv c.isAndX env).get andxField :=
     runMStmts_frame C c.isAndX c.marshal m { env := prologueEnv c.isAndX env } sM F.lm hrun andxField F.noAndx
